@@ -621,6 +621,28 @@ def task_range(rng, doc):
     return True
 
 
+ODD_RANGES = ["١-٣", "１-5", "1-٣", "1-9:٢", "١", "١,٢", "-١", "١-٣:١", "1,٢", "৩-৫", "٠", "1-3", "7", "0-90:10", "-5--14:-2", "1_0", "1_0-2_0", "+1", "1-+3", "01-03", "0-0", "²", "1-²", "Ⅷ", "1-3:1,٤"]
+
+ODD_CHARS = "".join(sorted({c for t in ODD_RANGES for c in t if ord(c) > 127}))
+
+
+@op("task-range", "any")
+def odd_range(rng, doc):
+    """an INT range EXPRESSION in its compact spelling (no blank anywhere), half of them with digits that are not 0-9"""
+    ps = ensure_space(rng, doc)
+    if ps is None:
+        return False
+    tps = [t for t in ps.get("taskParameterDefinitions") or [] if isinstance(t, dict)]
+    if not tps:
+        return False
+    t = rng.choice(tps)
+    t["type"] = "INT"
+    t["range"] = rng.choice(ODD_RANGES)
+    if len(tps) > 1:
+        ps.pop("combination", None)
+    return True
+
+
 @op("combination", "any")
 def combination(rng, doc):
     ps = ensure_space(rng, doc, n=rng.choice([1, 2, 3]))
